@@ -88,11 +88,11 @@ def gen_cases(rng, tier):
     # every sampling instant for one NRZ case without filter influence is covered by the model tie (pre-filter waveform)
     for M in [2, 4, 8, 16]:
         for dec in ["soft", "hard"]:
-            for _ in range(1 if tier == "quick" else 4):
+            for _ in range(2 if tier == "quick" else 6):
                 k = M.bit_length() - 1
                 nsym = 96 // 1 if tier != "quick" else 48
                 bits = [rng.randint(0, 1) for _ in range(nsym * k)]
-                cases.append({"kind": "ppm", "bits": bits, "M": M, "decision": dec, "sps": rng.choice([8, 16]), "R": 1e9,
+                cases.append({"kind": "ppm", "bits": bits, "M": M, "decision": dec, "sps": rng.choice([4, 5, 6, 7, 8, 9, 16, 33, 64]), "R": 1e9,
                               "Vpi": 3.5, "loss_dB": 3.0, "ER_dB": rng.choice([13.0, 30.0]), "P": 1e-3, "npol": rng.choice([1, 2]),
                               "pol": "x", "r": 0.9, "Rl": 50.0, "bw": rng.uniform(0.75, 1.2), "seed": rng.getrandbits(31)})
     # ook.DSP (eye-based threshold): the whole statement range — low extinction ratios with a very clean eye included
